@@ -41,7 +41,7 @@ func init() {
 		Exec:      exec,
 		Required: []string{"histories", "multi-order-case", "late-inherited-method", "diamond-instance", "tree-instance", "chain-instance",
 			"nested-whoppers", "multi-before", "multi-after", "shadowed-primary", "shadowed-default", "inherited-default",
-			"inherited-accessor", "inherited-keyword", "inherited-inittable"},
+			"inherited-accessor", "inherited-keyword", "inherited-inittable", "accessor-vs-component-method"},
 		Bound:         bound,
 		Selftest:      selftest,
 		CaseDeadlineS: 60,
@@ -107,6 +107,7 @@ func enumerate(tier string, emit func(string)) {
 		}
 	}
 	// simplest first
+	enumAccessors(emit)
 	emitM(allDags(2, 3, false), 0, 3, "all", allKinds)
 	if tier == engine.Thorough {
 		emitM(allDags(3, 3, false), 0, 4, "all", allKinds)
@@ -825,6 +826,8 @@ func exec(spec string) (res engine.Result) {
 		return execMethods(spec, parts)
 	case "v":
 		return execVars(spec, parts)
+	case "acc":
+		return execAccessors(spec, parts)
 	}
 	res.Fail("harness:bad-spec", spec)
 	return
